@@ -142,6 +142,35 @@ func checkProgram(prog []codec.Ins, textSafe, asmSafe bool) (string, string) {
 			return "prog:vm-dec:result-aliases-input-buffer:" + opOf(i), fmt.Sprintf("instruction %d decoded as %v, after the input buffer was overwritten it reads %v", i, at(prog, i), at(vp2, i))
 		}
 	}
+	// a tool that replaces some of the public handler fields (it collects the LOAD symbols and leaves HALT out of
+	// the listing): the listing is the default one without the lines of the silent handlers, and the collected
+	// arguments are the encoded ones
+	{
+		var loads []string
+		ph := vm.NewParseHandler().WithDefaultHandlers()
+		ph.Load = func(sym string, sz uint32) error { loads = append(loads, fmt.Sprintf("%s %d", sym, sz)); return nil }
+		ph.Halt = func() error { return nil }
+		var fl string
+		var ferr error
+		pv, _ := vk.Guard(func() { fl, ferr = ph.ToString(b) })
+		var wantLines, wantLoads []string
+		for k, ln := range codec.Strings(prog) {
+			switch prog[k].Op {
+			case codec.LOAD:
+				wantLoads = append(wantLoads, fmt.Sprintf("%s %d", prog[k].S1, prog[k].N))
+			case codec.HALT:
+			default:
+				wantLines = append(wantLines, ln)
+			}
+		}
+		want := strings.Join(wantLines, "\n")
+		if len(wantLines) > 0 {
+			want += "\n"
+		}
+		if pv != nil || ferr != nil || fl != want || strings.Join(loads, ";") != strings.Join(wantLoads, ";") {
+			return "prog:tostring:replaced-handlers", fmt.Sprintf("with Load and Halt replaced by silent handlers the listing is %q (err %v, panic %v), expected %q; LOADs seen %v, encoded %v", trunc([]byte(fl), 300), ferr, pv, trunc([]byte(want), 300), loads, wantLoads)
+		}
+	}
 	// ParseAll accepts and consumes
 	var ts string
 	var terr error
